@@ -582,6 +582,9 @@ func (r *runner) randTy(depth int) *parser.Type {
 	if r.g.r.Chance(30) {
 		t.Annotations = r.randAnns()
 	}
+	if t.ValueType != nil && r.g.r.Chance(25) {
+		t.CppType = r.randBytes()
+	}
 	return t
 }
 
@@ -638,7 +641,14 @@ func (r *runner) handBuilt() {
 		mk := func(n int) []*parser.Field {
 			var fs []*parser.Field
 			for i := 0; i < n; i++ {
-				fs = append(fs, &parser.Field{ID: int32(i + 1), Name: fmt.Sprintf("p%d", i), Type: r.randTy(2), Requiredness: parser.FieldType(rg.Intn(3))})
+				f := &parser.Field{ID: int32(i + 1), Name: fmt.Sprintf("p%d", i), Type: r.randTy(2), Requiredness: parser.FieldType(rg.Intn(3))}
+				if rg.Chance(30) {
+					f.Default = r.randCV(2)
+				}
+				if rg.Chance(30) {
+					f.Annotations = r.randAnns()
+				}
+				fs = append(fs, f)
 			}
 			return fs
 		}
@@ -841,7 +851,12 @@ func numPairs(c CV, out *[]string) {
 func astPairs(c *parser.ConstValue, out *[]string) {
 	v := c.TypedValue
 	if v.Double != nil {
-		*out = append(*out, vl.Hex(strconv.FormatFloat(*v.Double, 'f', -1, 64)), strconv.FormatUint(math.Float64bits(*v.Double), 10))
+		t := strconv.FormatFloat(*v.Double, 'f', -1, 64)
+		bits := strconv.FormatUint(math.Float64bits(*v.Double), 10)
+		*out = append(*out, vl.Hex(t), bits)
+		if !strings.Contains(t, ".") {
+			*out = append(*out, vl.Hex(t+".0"), bits) // the text the dumper writes for an integral double
+		}
 	}
 	for _, x := range v.List {
 		astPairs(x, out)
@@ -960,6 +975,7 @@ func run(repo, dir string, seed uint64, tier, trimmer string) error {
 		svc(Func{Args: []Field{{Ty: i32, Name: "c", Anns: []Ann{{"d", Lit{`"`, ""}}}}}}),
 		svc(Func{HasThr: true, Throws: []Field{{Ty: i32, Name: "c", Anns: []Ann{{"d", Lit{`"`, ""}}}}}}),
 		svc(Func{Args: []Field{{Ty: i32, Name: "c"}}, HasThr: true, Throws: []Field{{Ty: i32, Name: "d"}, {Ty: i32, Name: "e"}}}),
+		svc(Func{HasThr: true, Throws: []Field{{Ty: i32, Name: "c", Def: &zero}}}),
 		cst("i32", CV{Kind: "num", Num: "9223372036854775808.0"}), cst("double", CV{Kind: "num", Num: "1.0"}),
 		{Defs: []Def{{Kind: "", Cm: "// empty"}}},
 		{Incs: []Lit{{"'", `"`}}}, {Cpps: []Lit{{"'", `"`}}},
